@@ -72,6 +72,20 @@ Definition slice_to (s : list Z) (n : nat) : outcome (list Z) :=
   else Done (firstn n s).
 (** [format!("{:width$}", s, width = n)] : pads with spaces up to [n] *characters* *)
 Definition pad_to (s : list Z) (n : nat) : list Z := s ++ repeat 32 (n - nchars s)%nat.
+(** [s.chars().take(n).collect()] : the bytes of the first [n] characters *)
+Fixpoint take_chars (n : nat) (s : list Z) : list Z :=
+  match s with
+  | [] => []
+  | b :: rest =>
+      if is_cont b then b :: take_chars n rest          (* continuation byte of a character already taken *)
+      else match n with O => [] | S n' => b :: take_chars n' rest end
+  end.
+(** [let mut end = n; while !s.is_char_boundary(end) { end -= 1 }] for [n < s.len()] *)
+Fixpoint floor_boundary (s : list Z) (e : nat) : nat :=
+  match e with
+  | O => O
+  | S e' => if is_cont (nth e s 0) then floor_boundary s e' else e
+  end.
 
 (** * Column types and [RowNormalizer::normalize_and_validate] (table/normalization.rs) *)
 Inductive coltype : Type :=
@@ -90,10 +104,10 @@ Definition normalize_value (ty : coltype) (v : sqlvalue) : outcome sqlvalue :=
         if (m <? length s)%nat
         then match slice_to s m with Done s' => Done (VVarchar s') | Fail => Fail | Panicked => Panicked end
         else Done v
-    | TChar n, VCharacter s =>                (* normalize_char_value *)
-        match Nat.compare (length s) n with
+    | TChar n, VCharacter s =>                (* normalize_char_value: counts characters (803c4ba9) *)
+        match Nat.compare (nchars s) n with
         | Lt => Done (VCharacter (pad_to s n))
-        | Gt => match slice_to s n with Done s' => Done (VCharacter s') | Fail => Fail | Panicked => Panicked end
+        | Gt => Done (VCharacter (take_chars n s))
         | Eq => Done v
         end
     | _, _ => Fail                            (* StorageError::TypeMismatch *)
@@ -141,7 +155,7 @@ Definition coerce_lit (ty : coltype) (l : lit) : outcome sqlvalue :=
   | LStr s, TVarchar _ => Done (VVarchar s)
   | LStr s, TChar n =>                                  (* Varchar -> Character{length} *)
       if (n <? length s)%nat
-      then match slice_to s n with Done s' => Done (VCharacter s') | Fail => Fail | Panicked => Panicked end
+      then Done (VCharacter (firstn (floor_boundary s n) s))   (* cut on a character boundary (ba185c41) *)
       else Done (VCharacter (pad_to s n))
   | _, _ => Fail                                        (* "Type mismatch: expected .., got .." *)
   end.
